@@ -33,3 +33,11 @@ claim("C15",
       "are range-filtered. The justification table (about 100 sites) is trusted.",
       "Trusted: the abstract semantics in analysis/abs*.py and stdmodels.py; specs/justifications.txt; std callees without a panic model assumed non-panicking; foreign trait impls well-behaved.",
       "DESIGN.md 3, 5/C15")
+claim("C06",
+      "constant evaluation, acceptance-box extraction from path conditions, sibling/term-shape rules, interval abstract interpretation of time_delta.rs",
+      "Decides: the closed range (MIN/MAX, unit factors) as compiler-evaluated constants; TimeDelta::new accepts exactly the range including both corners; every unit "
+      "constructor/accessor pairs with its own factor and reads the sign-aware views; every TimeDelta construction site keeps 0 <= nanos < 10^9 and |secs| in range and every "
+      "arithmetic operation / cast in time_delta.rs cannot overflow (abstract interpretation, a few sites justified by name); checked_mul/add/sub range-check through new; "
+      "comparison derived over (secs, nanos); no product with a truncated quotient. Exactness of results is not decided.",
+      "Trusted: analysis/abs*.py, specs/justifications.txt, rustc const evaluation.",
+      "DESIGN.md 5/C06")
